@@ -4,6 +4,7 @@
      C <hex>   character literal: source bytes after the opening single quote
                -> C <closed> <body hex> <rest> <scanner diags> <value> <parser diags>
      I <text>  INT token literal      -> I <value> <diags>
+     N <text>  NEGATE + INT token     -> N <value> <diags>
      F <text>  FLOAT token literal    -> F <ieee bits hex> <diags>
    ("-" stands for the empty byte string) *)
 open C19_model
@@ -40,6 +41,9 @@ let () =
     | ["I"; s] ->
       let (v, e) = parse_int_lit (bytes_of_string s) in
       Buffer.add_string out (Printf.sprintf "I %Ld %Ld\n" (i64_of_n v) (i64_of_n e))
+    | ["N"; s] ->
+      let (v, e) = negate_int_lit (bytes_of_string s) in
+      Buffer.add_string out (Printf.sprintf "N %Ld %Ld\n" (i64_of_z v) (i64_of_n e))
     | ["F"; s] ->
       let (f, e) = parse_float_lit (bytes_of_string s) in
       Buffer.add_string out (Printf.sprintf "F %016Lx %Ld\n" (i64_of_z (sf_bits f)) (i64_of_n e))
